@@ -58,6 +58,10 @@ def scalar_class(t):
 
 
 def run(ctx):
+    # locals / parameters the rules below refer to by name (a rename makes the analysis 'broken', never a violation)
+    ctx.anchor(ctx.fn1('Oomd::Util::parseSize'), 'v')
+    ctx.anchor(ctx.fn1('Oomd::Util::parseSizeOrPercent'), 'v')
+    ctx.anchor(ctx.fn1('Oomd::PluginArgParser::parse'), 'args', 'argName', 'funcRes')
     P, cg = ctx.prog, ctx.cg
     E = Escape(P, cg)
     ALL = {"text", "absent", "explicit", "shape", "assert", "strpos"}
